@@ -26,10 +26,15 @@ impl From<u8> for CircuitState {
             0 => CircuitState::Closed,
             1 => CircuitState::Open,
             2 => CircuitState::HalfOpen,
+            HALF_OPENING => CircuitState::Open, // Half-open episode being set up: still failing fast
             _ => CircuitState::Closed, // Default fallback
         }
     }
 }
+
+/// Internal state between `Open` and `HalfOpen`: the request that starts a half-open episode
+/// resets the episode's counters while nobody else can count a probe. Reported as `Open`.
+const HALF_OPENING: u8 = 3;
 
 pub struct WriteCircuitBreaker {
     state: AtomicU8, // Represents CircuitState
@@ -95,10 +100,12 @@ impl WriteCircuitBreaker {
                     if self.transition_to_half_open() {
                         self.half_open_call_count.fetch_add(1, Ordering::AcqRel);
                         true
-                    } else {
+                    } else if self.current_state() == CircuitState::HalfOpen {
                         let current_calls =
                             self.half_open_call_count.fetch_add(1, Ordering::AcqRel);
                         current_calls < self.half_open_max_calls
+                    } else {
+                        false // The episode is still being set up (or is over already)
                     }
                 } else {
                     false // Still in failure mode
@@ -194,26 +201,40 @@ impl WriteCircuitBreaker {
     }
 
     fn transition_to_open(&self) {
+        // The half-open counters are reset when the next half-open episode starts. Resetting
+        // them here, after `Open` is visible, could wipe the probes of an episode that has
+        // started in the meantime.
         self.state
             .store(CircuitState::Open as u8, Ordering::Release);
-        // Reset half-open counters
-        self.half_open_call_count.store(0, Ordering::Release);
-        self.half_open_success_count.store(0, Ordering::Release);
     }
 
     /// Returns whether this call performed the transition.
     fn transition_to_half_open(&self) -> bool {
-        // Only transition if we're currently Open. The half-open counters were reset when the
-        // circuit opened; resetting them here again would let a request that lost the race
-        // wipe the probes already counted in the running episode.
-        self.state
+        // Only transition if we're currently Open. The winner resets the half-open counters
+        // before the episode becomes visible, so no probe of the new episode can be wiped and
+        // nothing of the previous episode is carried over.
+        if self
+            .state
             .compare_exchange(
                 CircuitState::Open as u8,
-                CircuitState::HalfOpen as u8,
+                HALF_OPENING,
                 Ordering::AcqRel,
                 Ordering::Acquire,
             )
-            .is_ok()
+            .is_err()
+        {
+            return false;
+        }
+        self.half_open_call_count.store(0, Ordering::Release);
+        self.half_open_success_count.store(0, Ordering::Release);
+        // Unless a concurrent report has moved the state on already
+        let _ = self.state.compare_exchange(
+            HALF_OPENING,
+            CircuitState::HalfOpen as u8,
+            Ordering::AcqRel,
+            Ordering::Acquire,
+        );
+        true
     }
 
     fn transition_to_closed(&self) {
